@@ -370,6 +370,8 @@ class KindInferenceMapper(Mapper):
                     "is meaningless"
                     % type(self.rec(expr.exponent)).__name__)
 
+        return unify(self.rec(expr.base), self.rec(expr.exponent))
+
     def map_generic_call(self, function_id, arg_dict, single_return_only=True):
         func = self.function_registry[function_id]
         arg_kinds = {}
